@@ -113,6 +113,8 @@ class PGen:
             lambda: ["FocusedSeq", "v", [["k", ["Default", B, ["bin", "&", E(), 1]]], ["v", ["Array", ["bin", "+", ["this", "k"], 1], B]], ["t", ["Rebuild", B, ["fn", "len", ["this", "v"]]]]]],
             lambda: ["Hex", X()], lambda: ["Enum", B, [["a", 1], ["b", 2]]], lambda: ["FlagsEnum", B, [["r", 1], ["w", 2], ["rw", 3]]], lambda: ["Mapping", B, [["zero", 0], ["one", 1], ["two", 2], ["three", 3], [tag(b"k"), 200], [None, 254]]], lambda: ["Enum", ["name", "Int16ub"], [["x", 0], ["y", 300]]],
             lambda: ["Pointer", E(), B], lambda: ["Peek", ["name", "Int16ub"]], lambda: ["name", "Tell"], lambda: ["Union", 0, [["a", ["name", "Int16ub"]], ["b", ["Bytes", 2]]]],
+            lambda: ["Union", r.choice([None, 0, 1, "b"]), [[None, ["Const", tag(bytes([r.choice([0, 1, 2])])), None]], ["b", ["name", "Int16ub"]], ["c", ["Bytes", 3]]]],
+            lambda: ["Union", "c", [["a", B], [None, ["Padding", 2]], ["c", ["name", "Int24ub"]], ["d", ["name", "Int16ul"]]]],
             lambda: ["NamedTuple", "pt", "x y", ["Array", 2, B]], lambda: ["Const", tag(bytes([r.choice([0, 1, 2])])), None], lambda: ["Const", r.choice([0, 1, 2]), B], lambda: ["Padded", 3, B],
             lambda: ["name", "VarInt"], lambda: ["CString", "ascii"], lambda: ["NullTerminated", ["name", "GreedyBytes"]], lambda: ["Bitwise", ["Struct", [["a", ["name", "Nibble"]], ["b", ["BitsInteger", 4, True, False]]]]],
             lambda: ["ProcessXor", ["bin", "|", E(), 1], B] if False else ["RawCopy", X()], lambda: ["Bitwise", ["BitsInteger", ["bin", "*", ["bin", "+", ["bin", "&", E(), 1], 1], 8], False, r.random() < 0.3]],
